@@ -206,11 +206,46 @@ class Engine(Interp, InterpExpr, InterpComp, InterpStmt, InterpCall, InterpBuilt
                     raise PyRaise(ev, line)
         if rty == ANY:
             raise Unsupported(f'contract {con.target}: return type unknown (add returns=)')
+        if self.generic_scopes and self.mode != EXEC and self._skolemisable(rty):
+            # call made while a comprehension is evaluated for a *generic* element: the result is a function of the bound
+            # variables (one value per element, not one for all) and the postconditions hold for every element that
+            # reaches the call; both facts outlive the evaluation scope of the generic element
+            qvars = [v for vs, _ in self.generic_scopes for v in vs]
+            # guards = what was assumed since the outermost generic element was introduced (iteration guard, filters,
+            # callee preconditions); the silent shape-validity facts of the values read on the way are typing axioms
+            # that hold for every element and are left out of the antecedent
+            facts = [t for t in self.run.pc[self.run.scopes[self.generic_scopes[0][1] - 1]:]
+                     if t.get_id() not in self.run.persistent]
+            result = self.skolem_value('ret_' + fi.name, rty, qvars, facts)
+            bindings['result'] = result
+            for cl in con.post:
+                t = self.as_bool(self.eval_clause(cl, con.module, bindings))
+                self.run.assume(z3.ForAll(qvars, z3.Implies(z3.And(facts) if facts else z3.BoolVal(True), t)), silent=True)
+            return result
         result = self.fresh_value('ret_' + fi.name, rty)
         bindings['result'] = result
         for cl in con.post:
             self.run.assume(self.eval_clause(cl, con.module, bindings))
         return result
+
+    def _skolemisable(self, ty):
+        if ty in (INT, BOOL, REAL, STR) or isinstance(ty, TEnum):
+            return True
+        return isinstance(ty, TTuple) and all(self._skolemisable(t) for t in ty.ts)
+
+    def skolem_value(self, hint, ty, qvars, facts):
+        """value of scalar/tuple type ty given by fresh uninterpreted functions of the bound variables qvars"""
+        if isinstance(ty, TTuple):
+            return tuple(self.skolem_value(f'{hint}.{i}', t, qvars, facts) for i, t in enumerate(ty.ts))
+        self.run.fresh_n += 1
+        f = z3.Function(f'{hint}!sk{self.run.fresh_n}', *([v.sort() for v in qvars] + [sort_of(ty)]))
+        t = f(*qvars)
+        g = z3.And(facts) if facts else z3.BoolVal(True)
+        if ty == STR:
+            self.run.assume(z3.ForAll(qvars, z3.Implies(g, t != STR_NONE)), silent=True)
+        if isinstance(ty, TEnum):
+            self.run.assume(z3.ForAll(qvars, z3.Implies(g, self.ts.enum_domain(t, ty.name))), silent=True)
+        return SV(t, ty)
 
     def call_ext_contract(self, con, args, kwargs, line):
         self.externals_used.add(con.target)
